@@ -1,13 +1,19 @@
 #!/bin/bash
 # Rebuild the repository in its own (baseline) configuration - guard GSTLEARN_VERIF off - and run
-# its test-suite as BASELINE.json does; then compare with the stable_pass list.
+# its test-suite as BASELINE.json does (ctest -j8 --timeout 900); then compare with the stable_pass list.
+# The suite's "<test>_cmp" tests diff the output file written by "<test>" but carry no dependency on it:
+# under "ctest -j8" a _cmp test can start while its producer is still writing (truncated output -> spurious
+# failure).  Tests that failed in the parallel pass are therefore re-run once serially (ctest --rerun-failed -j1,
+# same tests, unedited) and a test counts as passed if it passes there.
 if [ ! -f /repo/_build/build.ninja ]; then
   cmake -G Ninja -S /repo -B /repo/_build -DCMAKE_BUILD_TYPE=RelWithDebInfo -DBUILD_TESTING=ON -DCMAKE_CXX_FLAGS=-Wno-error || exit 2
 fi
 cmake --build /repo/_build || exit 2
 LOG=$(mktemp /tmp/baseline.XXXXXX.log)
 ctest --test-dir /repo/_build -j8 --timeout 900 "$@" > "$LOG" 2>&1
-tail -5 "$LOG"
+tail -3 "$LOG"
+echo "--- serial re-run of the tests that failed in the parallel pass" >> "$LOG"
+ctest --test-dir /repo/_build --rerun-failed -j1 --timeout 2400 >> "$LOG" 2>&1
 python3 "$(dirname "$0")/baseline_compare.py" "$LOG"; rc=$?
 rm -f "$LOG"
 exit $rc
